@@ -73,6 +73,11 @@ pub fn exec(run: u64, prog: &Value, out: &mut Out) {
     for (i, op) in ops.iter().enumerate().skip(1) {
         let name = str_of(get(op, "op"));
         let v = if has(op, "v") { bytes_of(get(op, "v")) } else { vec![] };
+        // byte slices are handed over at every alignment in turn
+        let off = (run as usize + i) % 16;
+        let mut abuf = vec![0x5Au8; off];
+        abuf.extend_from_slice(&v);
+        let vs = &abuf[off..];
         let res = guarded(|| match name {
             "append" => match v.len() {
                 1 => sdt.append(v[0]),
@@ -81,7 +86,7 @@ pub fn exec(run: u64, prog: &Value, out: &mut Out) {
                 8 => sdt.append(u64::from_le_bytes(v.clone().try_into().unwrap())),
                 _ => panic!("append width"),
             },
-            "append_slice" => sdt.append_slice(&v),
+            "append_slice" => sdt.append_slice(vs),
             "write" => {
                 let off = usize_off(op);
                 // alternate between the dedicated write_uN entry points and the generic write<T>
@@ -98,7 +103,7 @@ pub fn exec(run: u64, prog: &Value, out: &mut Out) {
                     _ => panic!("write width"),
                 }
             }
-            "write_bytes" => sdt.write_bytes(usize_off(op), &v),
+            "write_bytes" => sdt.write_bytes(usize_off(op), vs),
             "sink" => match v.len() {
                 1 => AmlSink::byte(&mut sdt, v[0]),
                 2 => AmlSink::word(&mut sdt, u16::from_le_bytes([v[0], v[1]])),
@@ -106,7 +111,7 @@ pub fn exec(run: u64, prog: &Value, out: &mut Out) {
                 8 => AmlSink::qword(&mut sdt, u64::from_le_bytes(v.clone().try_into().unwrap())),
                 _ => panic!("sink width"),
             },
-            "sink_vec" => AmlSink::vec(&mut sdt, &v),
+            "sink_vec" => AmlSink::vec(&mut sdt, vs),
             "update_checksum" => sdt.update_checksum(),
             _ => panic!("unknown sdt op {name}"),
         });
